@@ -93,6 +93,32 @@ impl Perm {
         }
         Perm::Table(table)
     }
+    /// give a struct / enum item a number that code likes to use as a sentinel (0, 1, u32::MAX, ...)
+    fn special(doc: &Value, rng: &mut Rng) -> Perm {
+        let mut types = vec![];
+        if let Some(index) = doc.get("index").and_then(|i| i.as_object()) {
+            for (k, item) in index {
+                let inner = item.get("inner").and_then(|i| i.as_object());
+                if inner.map(|i| i.contains_key("struct") || i.contains_key("enum")).unwrap_or(false) {
+                    if let Ok(n) = k.parse::<u64>() {
+                        types.push(n);
+                    }
+                }
+            }
+        }
+        types.sort();
+        if types.is_empty() {
+            return Perm::Identity;
+        }
+        let x = *rng.pick(&types);
+        let y = *rng.pick(&[0u64, 0, 0, 1, u32::MAX as u64, 1 << 31]);
+        let mut table = HashMap::new();
+        if x != y {
+            table.insert(x, y);
+            table.insert(y, x);
+        }
+        Perm::Table(table)
+    }
     /// swap the numbers of sibling items (two fields of one struct / variant, two variants of one
     /// enum), preferring siblings whose attributes differ: whatever is remembered per item number
     /// (attributes, skip status, kind) must follow the item, not the number
@@ -474,6 +500,18 @@ fn entries_diff(a: &Value, b: &Value) -> (Vec<(String, Value, Value)>, Vec<Strin
     (diffs, removed, added)
 }
 
+fn at_path<'a>(v: &'a Value, path: &str) -> Option<&'a Value> {
+    let mut cur = v;
+    for seg in path.split('/') {
+        cur = match cur {
+            Value::Object(m) => m.get(seg)?,
+            Value::Array(a) => a.get(seg.parse::<usize>().ok()?)?,
+            _ => return None,
+        };
+    }
+    Some(cur)
+}
+
 fn find_path_id(v: &Value, path_name: &str) -> Option<u64> {
     match v {
         Value::Object(m) => {
@@ -586,33 +624,40 @@ fn description_edits(texts: &Texts, example: &str, closure: &[String], base_reg:
         }
         // ---- field edits ----
         let prim_fields: Vec<&(String, String, Value)> = fields.iter().filter(|f| f.2.get("primitive").and_then(|p| p.as_str()).and_then(primitive_format).is_some()).collect();
-        let (c, k, ty) = if kind == 0 && !prim_fields.is_empty() { (*rng.pick(&prim_fields)).clone() } else if !fields.is_empty() { rng.pick(&fields).clone() } else { continue };
-        let old_prim = ty.get("primitive").and_then(|p| p.as_str()).map(|s| s.to_string());
-        // control: is the field visible in the registry, and where?
-        let control_prim = if old_prim.as_deref() == Some("bool") { "char" } else { "bool" };
+        // pick a field that shows in this example's registry (most fields of the dependent crates do
+        // not): up to eight candidates, each tried with a control edit
+        let mut found = None;
+        for _attempt in 0..8 {
+            let (c, k, ty) = if kind == 0 && !prim_fields.is_empty() { (*rng.pick(&prim_fields)).clone() } else if !fields.is_empty() { rng.pick(&fields).clone() } else { break };
+            let old_prim = ty.get("primitive").and_then(|p| p.as_str()).map(|s| s.to_string());
+            // control: is the field visible in the registry, and where?
+            let control_prim = if old_prim.as_deref() == Some("bool") { "char" } else { "bool" };
+            wd.begin(|| json!({"lane": "clilab", "example": example, "edit": "control", "crate": c, "item": k}).to_string());
+            let control = run(vec![(c.clone(), k.clone(), json!({"struct_field": {"primitive": control_prim}}))]);
+            wd.end();
+            let mut r = report.lock().unwrap();
+            r.eval();
+            r.count("description_edits.control_runs", 1);
+            let control_paths: BTreeSet<String> = match &control {
+                Ok(reg) => entries_diff(base_reg, reg).0.into_iter().map(|x| x.0).collect(),
+                Err(_) => BTreeSet::new(),
+            };
+            if control_paths.is_empty() {
+                r.count("description_edits.field_not_visible_in_registry", 1);
+                continue;
+            }
+            if control_paths.iter().any(|p| p.starts_with("Effect/")) {
+                // the payload of an `Effect` variant is the macro-generated request wrapper, which the
+                // generator treats specially (operation and output types are looked up through it): an
+                // edited payload is not a description any crux app can have
+                r.count("description_edits.effect_payloads_left_alone", 1);
+                continue;
+            }
+            found = Some((c, k, ty, old_prim, control_paths));
+            break;
+        }
+        let Some((c, k, ty, old_prim, control_paths)) = found else { continue };
         wd.begin(|| json!({"lane": "clilab", "example": example, "edit": "field", "crate": c, "item": k}).to_string());
-        let control = run(vec![(c.clone(), k.clone(), json!({"struct_field": {"primitive": control_prim}}))]);
-        let mut r = report.lock().unwrap();
-        r.eval();
-        r.count("description_edits.control_runs", 1);
-        let control_paths: BTreeSet<String> = match &control {
-            Ok(reg) => entries_diff(base_reg, reg).0.into_iter().map(|x| x.0).collect(),
-            Err(_) => BTreeSet::new(),
-        };
-        drop(r);
-        if control_paths.is_empty() {
-            wd.end();
-            report.lock().unwrap().count("description_edits.field_not_visible_in_registry", 1);
-            continue;
-        }
-        if control_paths.iter().any(|p| p.starts_with("Effect/")) {
-            // the payload of an `Effect` variant is the macro-generated request wrapper, which the
-            // generator treats specially (operation and output types are looked up through it): an
-            // edited payload is not a description any crux app can have
-            wd.end();
-            report.lock().unwrap().count("description_edits.effect_payloads_left_alone", 1);
-            continue;
-        }
         // the edit proper, with its predicted effect
         let (new_ty, what, predict): (Value, String, Box<dyn Fn(&Value) -> Value>) = if kind == 0 && old_prim.is_some() {
             let old = old_prim.clone().unwrap();
@@ -645,8 +690,17 @@ fn description_edits(texts: &Texts, example: &str, closure: &[String], base_reg:
         match res {
             Ok(reg) => {
                 let (diffs, removed, added) = entries_diff(base_reg, &reg);
-                let paths: BTreeSet<String> = diffs.iter().map(|d| d.0.clone()).collect();
-                let wrong: Vec<&(String, Value, Value)> = diffs.iter().filter(|(_, old, new)| *new != predict(old)).collect();
+                // everything that changed lies where the control edit showed the field ...
+                let paths: BTreeSet<String> = diffs.iter().map(|d| d.0.clone()).filter(|p| !control_paths.iter().any(|c| p == c || p.starts_with(&format!("{c}/")))).collect();
+                // ... and there the registry says what was predicted
+                let wrong: Vec<(String, Value, Value)> = control_paths
+                    .iter()
+                    .filter_map(|c| {
+                        let old = at_path(base_reg, c)?.clone();
+                        let new = at_path(&reg, c).cloned().unwrap_or(Value::Null);
+                        if new != predict(&old) { Some((c.clone(), old, new)) } else { None }
+                    })
+                    .collect();
                 // (types nobody refers to any more may leave the registry - the protocol types behind an
                 // `Effect` variant whose payload is no longer a plain operation, say - but what is left
                 // must be closed)
@@ -654,10 +708,10 @@ fn description_edits(texts: &Texts, example: &str, closure: &[String], base_reg:
                 let mut refs = BTreeSet::new();
                 type_names(&reg, &mut refs);
                 let dangling: Vec<&String> = refs.iter().filter(|t| reg.get(t.as_str()).is_none() && !(LIBS.contains(&example) && *t == "Effect")).collect();
-                if paths != control_paths || !wrong.is_empty() || !added.is_empty() || !dangling.is_empty() {
+                if !paths.is_empty() || !wrong.is_empty() || !added.is_empty() || !dangling.is_empty() {
                     r.violation(
                         &format!("registry/field-edit-has-unexpected-effect/{}", if kind == 0 && old_prim.is_some() { "primitive".to_string() } else { what.replace(' ', "") }),
-                        &format!("{example}: the type of a field was edited ({what}); the registry changed at {:?} (the field shows at {:?}); not as predicted: {:?}; entries added {added:?}; referenced but not defined {dangling:?}", paths.iter().take(4).collect::<Vec<_>>(), control_paths.iter().take(4).collect::<Vec<_>>(), wrong.iter().take(3).collect::<Vec<_>>()),
+                        &format!("{example}: the type of a field was edited ({what}); the registry also changed at {:?} (the field shows at {:?}); not as predicted: {:?}; entries added {added:?}; referenced but not defined {dangling:?}", paths.iter().take(4).collect::<Vec<_>>(), control_paths.iter().take(4).collect::<Vec<_>>(), wrong.iter().take(3).collect::<Vec<_>>()),
                         json!({"lane": "clilab", "example": example, "crate": c, "item": k, "edit": what}),
                     );
                 } else {
@@ -834,7 +888,9 @@ fn main() {
                             }
                         }
                         _ => {
-                            if closure.contains(n) {
+                            if closure.contains(n) && (t / 5) % 2 == 1 {
+                                Perm::special(&texts.raw[*n], &mut rng)
+                            } else if closure.contains(n) {
                                 let others: Vec<&Value> = closure.iter().filter(|c| *c != n).filter_map(|c| texts.raw.get(*c)).collect();
                                 Perm::collide(&texts.raw[*n], &others, &mut rng, 3)
                             } else {
@@ -845,7 +901,7 @@ fn main() {
                     perms.insert(n.to_string(), p);
                 }
                 let mut r = report.lock().unwrap();
-                r.count(match style { 1 => "affine_renumberings", 2 => "dense_renumberings", 4 => "sibling_swap_renumberings", _ => "forced_cross_crate_collision_renumberings" }, 1);
+                r.count(match style { 1 => "affine_renumberings", 2 => "dense_renumberings", 4 => "sibling_swap_renumberings", _ => if (t / 5) % 2 == 1 { "sentinel_number_renumberings" } else { "forced_cross_crate_collision_renumberings" } }, 1);
                 drop(r);
             }
             wd.begin(|| json!({"lane": "clilab", "example": example, "transform": t, "renumbered": renumbered}).to_string());
